@@ -60,10 +60,16 @@ Gens == <<
   KOrientY(<<3, 4, 0>>, <<0, 0, 5>>, 5), KOrientZ(<<0, 3, 4>>, <<5, 0, 0>>, 5),
   \* the reference direction need not be perpendicular to the new axis: the derived axis is the
   \* UNIT vector along the cross product (given explicitly, checked parallel in MC_Xform)
-  ObliqueY, ObliqueZ
+  ObliqueY, ObliqueZ,
+  \* negative and more-than-full multiples of a quarter turn: rotate_x(-270 deg) is the quarter turn,
+  \* rotate_y(-180 deg) and rotate_z(-540 deg) are half turns
+  KRotX(0, 1, 1), KRotY(-1, 0, 1), KRotZ(-1, 0, 1),
+  \* 5 * from_basis(x, y, (0.6, 0, 0.8)): three unit vectors, x perpendicular to y and y to the third,
+  \* but the first and the third are not perpendicular - a basis that only LOOKS orthonormal pairwise-adjacent
+  FromBasis(<<5, 0, 0>>, <<0, 5, 0>>, <<3, 0, 4>>)
 >>
 NGen == Len(Gens)
-RotGens == {5, 6, 7, 8}            \* pure rotations (k = 1)
+RotGens == {5, 6, 7, 8, 17, 18, 19}            \* pure rotations (k = 1)
 
 Det3(M) == M[1][1] * (M[2][2] * M[3][3] - M[2][3] * M[3][2])
          - M[1][2] * (M[2][1] * M[3][3] - M[2][3] * M[3][1])
